@@ -32,7 +32,7 @@ type gen struct {
 	count map[string]int
 }
 
-var pool = []string{"a", "b", "c", "d", "a.tmp", "b~"} // incl. names an implementation might take for its own temporaries
+var pool = []string{"a", "b", "c", "d", "a.tmp", "b~", ".a", ".c"} // incl. names an implementation might take for its own temporaries, and dot-prefixed twins of plain names
 var chunkPool = []int{1, 2, 3, 7, 4096}
 
 func (g *gen) bytes(n int) []byte {
